@@ -17,7 +17,7 @@ struct L10 : Listener {
         if (!d.empty()) { r.fail("op " + std::to_string(i) + " (" + op.code + " " + o.note + ") threw " + o.cls + " but the object changed: " + d); stop = true; return; }
         SnapFacts f = factsOf(pre);
         if (f.frames >= 1 && f.customGroups >= 1) ++refusedRich;
-        if (o.note == "exists1" || o.note == "ragged" || (op.code == "param" && o.cls == "runtime_error")) ++partly;
+        if (o.note == "exists1" || o.note == "ragged" || o.note == "altname" || (op.code == "param" && o.cls == "runtime_error")) ++partly;
     }
 };
 }
